@@ -97,7 +97,20 @@ pub fn shrink(script: &Script, sig: &str, fail_step: usize, known: &Arc<Vec<Find
                     Step::ReadSession { handles: h, sched: sc }
                 }
                 Step::Entry { m, k, acts, panic_at } => {
-                    let a = ddmin(acts, |cand| try_with(Step::Entry { m: *m, k: *k, acts: cand.to_vec(), panic_at: *panic_at }, &mut budget));
+                    let mut a = ddmin(acts, |cand| try_with(Step::Entry { m: *m, k: *k, acts: cand.to_vec(), panic_at: *panic_at }, &mut budget));
+                    // the arms of a match on the entry
+                    for ai in 0..a.len() {
+                        if let EAct::Match { occ, vac } = a[ai].clone() {
+                            let rebuild = |o: &[OAct], v: &[VAct], a: &Vec<EAct>| {
+                                let mut b = a.clone();
+                                b[ai] = EAct::Match { occ: o.to_vec(), vac: v.to_vec() };
+                                Step::Entry { m: *m, k: *k, acts: b, panic_at: *panic_at }
+                            };
+                            let o2 = ddmin(&occ, |cand| try_with(rebuild(cand, &vac, &a), &mut budget));
+                            let v2 = ddmin(&vac, |cand| try_with(rebuild(&o2, cand, &a), &mut budget));
+                            a[ai] = EAct::Match { occ: o2, vac: v2 };
+                        }
+                    }
                     Step::Entry { m: *m, k: *k, acts: a, panic_at: *panic_at }
                 }
                 other => other.clone(),
